@@ -110,6 +110,16 @@ func hardControl(s string) bool {
 	return false
 }
 
+// c0Control: line breaks, C0 controls and DEL.
+func c0Control(s string) bool {
+	for _, r := range s {
+		if r != '\t' && (r < 0x20 || r == 0x7f) {
+			return true
+		}
+	}
+	return false
+}
+
 func softSuspicious(s string) bool {
 	for _, r := range s {
 		if r == '\t' || r == 0x200b || r == 0x202e || r == 0xfeff {
@@ -140,10 +150,11 @@ func ValidateChain(chain []VersionFacts) (Verdict3, string) {
 				open = "questionable characters in " + field
 			}
 		}
-		if hardControl(v.Avatar) {
+		// (the avatar is a URL, judged by URL rules: only what no URL parser accepts is certain)
+		if c0Control(v.Avatar) {
 			return MustRefuse, "unsafe characters in avatar"
 		}
-		if v.Avatar != "" && (!strings.Contains(v.Avatar, "://") || strings.ContainsAny(v.Avatar, " ") || softSuspicious(v.Avatar)) {
+		if v.Avatar != "" && (!strings.Contains(v.Avatar, "://") || strings.ContainsAny(v.Avatar, " ") || softSuspicious(v.Avatar) || hardControl(v.Avatar)) {
 			open = "avatar is not plainly an absolute URL"
 		}
 		names := make([]string, 0, len(last))
